@@ -66,6 +66,11 @@ CHECKS = {
         "both sides are parsed by the real parser and z3 proves them equivalent for all trees; a rejected documented form is a violation.",
    note="Trusted: the hand-expanded core forms, FOL encoder, z3. Known findings: closure pushed into conjunctions (differs only on empty quantifier domains); descendant axis under an existential rejected.",
    design="§3 C08"),
+ "C12": dict(level="other", technique="CrossHair (z3): solver-driven exhaustive enumeration of bounded input trees; real fuzzer/mutator with the random module replaced by every periodic draw stream",
+   text=BOUNDED + "Real GrammarFuzzer/GrammarCoverageFuzzer.expand_tree and Mutator.replace_subtree_randomly/generalize_subtree on every tree decodable from <= 4/6 choices over 3 grammars, "
+        "for every periodic random stream of period 2/3 over 4 values: result closed, valid for the grammar, same root, expanded part unchanged.",
+   note="Trusted: tree validator, random stub. [decoder]. Outside: Mutator.mutate/swap_subtrees (raise TypeError from the installed `returns` library on the unchanged tree), aperiodic streams.",
+   design="§3 C12"),
 }
 NOT_APPLICABLE = {
  "C21": "needs end-to-end solve() on the shipped formalizations plus external validators (docutils, XML parser): the solver loop is a heap algorithm around Z3 calls that no engine here can encode, and the validators are not solver objects",
